@@ -164,10 +164,10 @@ PROPS = {
             "among the visible inner targets, read row[i], carry the inner dtype and the rows come from executing "
             "that very subquery (R-VISFILTER); two different IN-subqueries do not compare equal (R-EQFAITH); the "
             "single-column guard exists (R-GUARDS) and the IN node is NULL-propagating (R-NULLSTRICT). Does not decide "
-            "equality of nested and materialised results in general. IN / NOT IN hand the compiled operands on unmodified, wrap a one-column subquery as a constant list and reject wider ones (R-INOP). Compiling the enclosing SELECT stores nothing into the compiled subquery or its table, for ordered / unordered and plain / aggregate outer queries (R-QUERYFROZEN): FROM (q) runs over the rows q produces by itself, in q's order."),
+            "equality of nested and materialised results in general. IN / NOT IN hand the compiled operands on unmodified, wrap a one-column subquery as a constant list and reject wider ones (R-INOP). Compiling the enclosing SELECT stores nothing into the compiled subquery or its table, for ordered / unordered and plain / aggregate outer queries (R-QUERYFROZEN): FROM (q) runs over the rows q produces by itself, in q's order. `SELECT * FROM (q)` presents one column per visible target of q, in order (R-SUBQNAMES; for an inner query with two targets of the same name the columns collapse: known finding D30)."),
         'assumptions': TRUSTED_STRUCT,
         'quick': [sxst.rule_reentrant, cr.rule_visfilter, eqfaith.rule_eqfaith, sxg.rule_guards, evalnodes.rule_nullstrict,
-                  sx.rule_subq1d, sxk.rule_inop, cr.rule_wildcard, sxst.rule_queryfrozen],
+                  sx.rule_subq1d, sxk.rule_inop, cr.rule_wildcard, sxst.rule_queryfrozen, cr.rule_subqnames],
         'thorough': [],
     },
     'C09': {
